@@ -415,9 +415,10 @@ func (obj *SparseInt16Vector) Permute(pi []int) error {
       }
     }
   }
+  // rebuild the index from the positions that hold a value
   obj.vectorSparseIndex = vectorSparseIndex{}
-  for i := 0; i < len(pi); i++ {
-    obj.indexInsert(pi[i])
+  for i := range obj.values {
+    obj.indexInsert(i)
   }
   return nil
 }
